@@ -243,6 +243,285 @@ func (g *gen) c09Sites() {
 	g.c09Tables()
 	g.c09SessionMaps()
 	g.c09ReceiptsOrder()
+	g.c09LockPaths()
+}
+
+// c09LockPaths: for every function of the handler files that calls Lock (or
+// RLock) on a mutex as a statement, whether the matching Unlock is reached on
+// every path: a deferred Unlock right after, or an explicit one before every
+// return and with the same state at the end of all branches of an if/switch
+// (a branch that unlocks while its sibling does not is a conditional unlock),
+// loop bodies leaving the state as they found it, and nothing held at the end.
+func (g *gen) c09LockPaths() {
+	files := []string{"receipts/receipts.go", "history/history.go", "ibb/ibb.go", "ibb/listen.go", "muc/muc.go",
+		"blocklist/handler.go", "carbons/handler.go", "roster/roster.go", "disco/handler.go", "mux/mux.go", "session_iq.go"}
+	type row struct {
+		file, fn, mu string
+		ok           bool
+	}
+	var rows []row
+	for _, rel := range files {
+		f := g.parse(rel)
+		if f == nil {
+			continue
+		}
+		for _, d := range f.Decls {
+			fd, is := d.(*ast.FuncDecl)
+			if !is || fd.Body == nil {
+				continue
+			}
+			// the bodies to analyse: the function and every closure in it
+			var bodies []*ast.BlockStmt
+			bodies = append(bodies, fd.Body)
+			ast.Inspect(fd.Body, func(n ast.Node) bool {
+				if fl, is := n.(*ast.FuncLit); is {
+					bodies = append(bodies, fl.Body)
+				}
+				return true
+			})
+			for _, body := range bodies {
+				mus := map[string]bool{}
+				var order []string
+				c09WalkStmts(body.List, func(st ast.Stmt) {
+					if mu, op := c09MutexOp(g, st); op == "Lock" && !mus[mu] {
+						mus[mu] = true
+						order = append(order, mu)
+					}
+				})
+				for _, mu := range order {
+					held, ok := c09LockWalk(g, body.List, mu, false)
+					rows = append(rows, row{rel, c09FuncName(fd), mu, ok && !held})
+				}
+			}
+		}
+	}
+	g.p("\n(* ---- every Lock of the handler files is released on every path ---- *)\n")
+	g.p("Definition lock_paths : list (bytes * bytes * bytes * bool) := [ (* (file, function, mutex, released on every path) *)\n")
+	for i, r := range rows {
+		sep := ";"
+		if i+1 == len(rows) {
+			sep = ""
+		}
+		g.p("  (hex \"%s\", hex \"%s\", hex \"%s\", %v)%s (* %s %s: %s *)\n", hexOf([]byte(r.file)), hexOf([]byte(r.fn)), hexOf([]byte(r.mu)), r.ok, sep, r.file, r.fn, r.mu)
+	}
+	g.p("].\n")
+	if len(rows) < 5 {
+		g.errs = append(g.errs, "lock paths: fewer than five lock regions found in the handler files")
+	}
+}
+
+// c09WalkStmts visits every statement of a body without entering closures.
+func c09WalkStmts(list []ast.Stmt, f func(ast.Stmt)) {
+	for _, st := range list {
+		f(st)
+		ast.Inspect(st, func(n ast.Node) bool {
+			switch x := n.(type) {
+			case *ast.FuncLit:
+				return false
+			case *ast.BlockStmt:
+				if n != st {
+					c09WalkStmts(x.List, f)
+					return false
+				}
+			case *ast.CaseClause:
+				c09WalkStmts(x.Body, f)
+				return false
+			case *ast.CommClause:
+				c09WalkStmts(x.Body, f)
+				return false
+			}
+			return true
+		})
+	}
+}
+
+// c09MutexOp: (mutex expression, Lock|Unlock|DeferUnlock) for a statement that
+// is a call of Lock/RLock/Unlock/RUnlock, "" otherwise.
+func c09MutexOp(g *gen, st ast.Stmt) (string, string) {
+	var call *ast.CallExpr
+	deferred := false
+	switch x := st.(type) {
+	case *ast.ExprStmt:
+		call, _ = x.X.(*ast.CallExpr)
+	case *ast.DeferStmt:
+		call, deferred = x.Call, true
+	}
+	if call == nil || len(call.Args) != 0 {
+		return "", ""
+	}
+	sel, is := call.Fun.(*ast.SelectorExpr)
+	if !is {
+		return "", ""
+	}
+	mu := c09Expr(g.fset, sel.X)
+	switch sel.Sel.Name {
+	case "Lock", "RLock":
+		if !deferred {
+			return mu, "Lock"
+		}
+	case "Unlock", "RUnlock":
+		if deferred {
+			return mu, "DeferUnlock"
+		}
+		return mu, "Unlock"
+	}
+	return "", ""
+}
+
+func c09Terminates(list []ast.Stmt) bool {
+	if len(list) == 0 {
+		return false
+	}
+	switch x := list[len(list)-1].(type) {
+	case *ast.ReturnStmt:
+		return true
+	case *ast.BranchStmt:
+		return x.Tok == token.GOTO || x.Tok == token.CONTINUE || x.Tok == token.BREAK
+	case *ast.ExprStmt:
+		if call, is := x.X.(*ast.CallExpr); is {
+			if id, is := call.Fun.(*ast.Ident); is && id.Name == "panic" {
+				return true
+			}
+		}
+	}
+	return false
+}
+
+// c09LockWalk walks a statement list with the mutex held or not; it returns the
+// state at the end and whether every path so far is fine.
+func c09LockWalk(g *gen, list []ast.Stmt, mu string, held bool) (bool, bool) {
+	deferred := false
+	for _, st := range list {
+		if m, op := c09MutexOp(g, st); m == mu {
+			switch op {
+			case "Lock":
+				held = true
+			case "Unlock":
+				held = false
+			case "DeferUnlock":
+				deferred = true
+			}
+			continue
+		}
+		if deferred {
+			continue // released when the function returns, whatever happens
+		}
+		switch x := st.(type) {
+		case *ast.ReturnStmt:
+			if held {
+				return held, false
+			}
+		case *ast.BlockStmt:
+			h, ok := c09LockWalk(g, x.List, mu, held)
+			if !ok {
+				return h, false
+			}
+			held = h
+		case *ast.IfStmt:
+			var states []bool
+			var cur ast.Stmt = x
+			hasElse := false
+			for cur != nil {
+				switch y := cur.(type) {
+				case *ast.IfStmt:
+					h, ok := c09LockWalk(g, y.Body.List, mu, held)
+					if !ok {
+						return h, false
+					}
+					if !c09Terminates(y.Body.List) {
+						states = append(states, h)
+					}
+					cur = y.Else
+				case *ast.BlockStmt:
+					hasElse = true
+					h, ok := c09LockWalk(g, y.List, mu, held)
+					if !ok {
+						return h, false
+					}
+					if !c09Terminates(y.List) {
+						states = append(states, h)
+					}
+					cur = nil
+				default:
+					cur = nil
+				}
+			}
+			if !hasElse {
+				states = append(states, held)
+			}
+			for _, s := range states {
+				if s != states[0] {
+					return held, false // one branch releases (or takes) the lock, another does not
+				}
+			}
+			if len(states) > 0 {
+				held = states[0]
+			}
+		case *ast.ForStmt:
+			h, ok := c09LockWalk(g, x.Body.List, mu, held)
+			if !ok || (h != held && !c09Terminates(x.Body.List)) {
+				return held, false
+			}
+		case *ast.RangeStmt:
+			h, ok := c09LockWalk(g, x.Body.List, mu, held)
+			if !ok || (h != held && !c09Terminates(x.Body.List)) {
+				return held, false
+			}
+		case *ast.SwitchStmt, *ast.TypeSwitchStmt, *ast.SelectStmt:
+			var body *ast.BlockStmt
+			switch y := x.(type) {
+			case *ast.SwitchStmt:
+				body = y.Body
+			case *ast.TypeSwitchStmt:
+				body = y.Body
+			case *ast.SelectStmt:
+				body = y.Body
+			}
+			var states []bool
+			hasDefault := false
+			for _, cl := range body.List {
+				var b []ast.Stmt
+				switch c := cl.(type) {
+				case *ast.CaseClause:
+					b = c.Body
+					if c.List == nil {
+						hasDefault = true
+					}
+				case *ast.CommClause:
+					b = c.Body
+					hasDefault = true // a select always takes one of its clauses
+				}
+				h, ok := c09LockWalk(g, b, mu, held)
+				if !ok {
+					return h, false
+				}
+				if !c09Terminates(b) {
+					states = append(states, h)
+				}
+			}
+			if !hasDefault {
+				states = append(states, held)
+			}
+			for _, s := range states {
+				if s != states[0] {
+					return held, false
+				}
+			}
+			if len(states) > 0 {
+				held = states[0]
+			}
+		case *ast.LabeledStmt:
+			h, ok := c09LockWalk(g, []ast.Stmt{x.Stmt}, mu, held)
+			if !ok {
+				return h, false
+			}
+			held = h
+		}
+	}
+	if deferred {
+		return false, true
+	}
+	return held, true
 }
 
 // c09SessionMaps lists every access (read, write, delete) of the session's map
